@@ -110,6 +110,19 @@ def to_S(v):
     raise Unsupported('str of %s' % type(v).__name__)
 
 
+def _mentions(e, v):
+    seen, todo = set(), [e]
+    while todo:
+        t = todo.pop()
+        if t.get_id() in seen:
+            continue
+        seen.add(t.get_id())
+        if t.eq(v):
+            return True
+        todo += t.children()
+    return False
+
+
 class X:
     """one executor instance per analysed entry point"""
     MAX_DEPTH = 12
@@ -427,9 +440,9 @@ class X:
             if name == 'shape':
                 return T(list(b.shape))
             if name == 'T':
-                if b.rank == 2:
-                    return Arr((b.shape[1], b.shape[0]), lambda i, j: b.f(j, i), b.dtype, b.owner, b.sparse)
-                return b
+                if b.rank <= 1:
+                    return b
+                return Arr(tuple(reversed(b.shape)), lambda *i: b.f(*reversed(i)), b.dtype, b.owner, b.sparse)     # numpy: .T reverses all axes
             if name == 'ndim':
                 return b.rank
             if name == 'size':
@@ -897,6 +910,8 @@ class X:
         if isinstance(fv, tuple) and fv and fv[0] == 'valmethod':
             return self.valmethod(fv[1], fv[2], args, kwargs, st, node)
         if isinstance(fv, tuple) and fv and fv[0] == 'accmethod':
+            if hasattr(fv[1], 'acc_call') and fv[2] not in ('keys', 'items', 'values'):
+                return fv[1].acc_call(self, st, fv[2], args, kwargs)
             return fv
         if isinstance(fv, tuple) and fv and fv[0] == 'arrmethod':
             return self.arrmethod(fv[1], fv[2], args, kwargs, st, node)
@@ -1123,8 +1138,34 @@ class X:
             return self.bin(bi[fn], a, b, st, node)
         if fn == 'array' or fn == 'asarray':
             v = args[0]
+            if isinstance(v, T) and v.items and all(isinstance(p, Arr) for p in v.items):
+                # stack of equally shaped arrays along a new leading axis (numpy raises / builds an object array otherwise: side condition recorded)
+                parts = v.items
+                if len({p.rank for p in parts}) != 1:
+                    raise Unsupported('np.array of arrays of different rank')
+                for p in parts[1:]:
+                    for d0, d1 in zip(parts[0].shape, p.shape):
+                        st.add_raise(z3.And(st.live, z3.Not(num2(d0, d1, lambda x, y: x == y))), 'ValueError', getattr(node, 'lineno', 0))
+
+                def fstack(i, *j, parts=parts):
+                    r = parts[-1].f(*j)
+                    for k in range(len(parts) - 2, -1, -1):
+                        r = ite(num2(i, k, lambda x, y: x == y), parts[k].f(*j), r)
+                    return r
+                return Arr((len(parts),) + parts[0].shape, fstack, parts[0].dtype, 'fresh')
             if isinstance(v, T):
                 return T(v.items, 'vec')
+            if isinstance(v, Arr) and v.rank == 1:
+                probe = self.fresh_int('stk')
+                try:
+                    inner = v.f(probe)
+                except Unsupported:
+                    inner = None
+                if isinstance(inner, Arr):
+                    for d0 in inner.shape:
+                        if isinstance(d0, z3.ExprRef) and _mentions(d0, probe):
+                            raise Unsupported('np.array of a ragged comprehension')
+                    return Arr((v.shape[0],) + inner.shape, lambda i, *j: v.f(i).f(*j), inner.dtype, 'fresh')
             if isinstance(v, Arr):
                 dt = kwargs.get('dtype')
                 dts = conc(dt) if dt is not None and not isinstance(dt, Opaque) else None
@@ -1167,6 +1208,22 @@ class X:
             raise Unsupported('np.%s of %s' % (fn, type(v).__name__))
         if fn in ('hstack', 'concatenate'):
             parts = args[0].items if isinstance(args[0], T) else None
+            if parts is not None and fn == 'concatenate' and len(parts) > 0 and all(isinstance(p, Arr) and p.rank == 2 for p in parts) and conc(kwargs.get('axis', 0)) == 0:
+                # axis-0 concatenation of matrices: column extents must agree (numpy raises otherwise)
+                for p in parts[1:]:
+                    st.add_raise(z3.And(st.live, z3.Not(num2(parts[0].shape[1], p.shape[1], lambda x, y: x == y))), 'ValueError', getattr(node, 'lineno', 0))
+                cols = [self.concat1([Arr((p.shape[0],), (lambda i, p=p: p.f(i, 0)), p.dtype) for p in parts], st)]
+                rows = cols[0].shape[0]
+                offs = [0]
+                for p in parts:
+                    offs.append(self.bin(ast.Add(), offs[-1], p.shape[0], st))
+
+                def f2(i, j, parts=parts, offs=offs):
+                    r = parts[-1].f(self.bin(ast.Sub(), i, offs[-2], st), j)
+                    for k in range(len(parts) - 2, -1, -1):
+                        r = ite(num2(i, offs[k + 1], lambda x, y: x < y), parts[k].f(self.bin(ast.Sub(), i, offs[k], st), j), r)
+                    return r
+                return Arr((rows, parts[0].shape[1]), f2, parts[0].dtype, 'fresh')
             if parts is None or not all(isinstance(p, Arr) and p.rank == 1 for p in parts):
                 raise Unsupported('np.%s' % fn)
             return self.concat1(parts, st)
@@ -1272,6 +1329,15 @@ class X:
                 return Arr((new[0],), lambda i: a.f(i, 0), a.dtype, a.owner, a.sparse)
         if a.rank == len(new):
             return Arr(new, a.f, a.dtype, a.owner, a.sparse)
+        # dropping axes of extent exactly 1 (C order): (t, 1, c) -> (t, c); the remaining extents must agree syntactically
+        keep = [k for k, d0 in enumerate(a.shape) if conc(d0) != 1]
+        if len(keep) == len(new) and all(conc(z3.simplify(Z(a.shape[k]) == Z(nd))) is True for k, nd in zip(keep, new)):
+            def fsq(*i, keep=keep, rank=a.rank):
+                full = [0] * rank
+                for k, ix in zip(keep, i):
+                    full[k] = ix
+                return a.f(*full)
+            return Arr(new, fsq, a.dtype, a.owner, a.sparse)
         raise Unsupported('reshape %s -> %s' % (a.shape, new))
 
     DOTS = []
@@ -1660,6 +1726,8 @@ class X:
         e1, e2 = dict(env), dict(env)
         s1, s2 = St(z3.And(live, c)), St(z3.And(live, z3.Not(c)))
         s1.ret = s2.ret = st.ret
+        if getattr(st, 'cont', None) is not None:
+            s1.cont = s2.cont = FALSE
         o1 = self._snapshot_objs(env)
         self.block(s.body, e1, s1)
         o1b = self._snapshot_objs(env); self._restore_objs(o1)
@@ -1675,6 +1743,8 @@ class X:
         st.side += s1.side + s2.side
         st.effects += s1.effects + s2.effects
         st.live = z3.simplify(z3.Or(s1.live, s2.live))
+        if getattr(st, 'cont', None) is not None:
+            st.cont = z3.Or(st.cont, s1.cont, s2.cont)
 
     # objects are mutable: snapshot / merge their fields across branches
     def _objs(self, env):
@@ -1715,7 +1785,11 @@ class X:
     def for_over(self, s, it, env, st):
         if isinstance(it, tuple) and it and it[0] == 'valmethod' and isinstance(it[1], T):
             it = it[1]
-        if isinstance(it, tuple) and it and it[0] == 'accmethod' and it[2] == 'keys':
+        if isinstance(it, tuple) and it and it[0] == 'accmethod' and it[2] in ('keys', 'items'):
+            try:
+                it[1].iter_kind = it[2]
+            except AttributeError:
+                pass
             it = it[1]
         if isinstance(it, tuple) and it and it[0] == 'valmethod' and isinstance(it[1], M) and it[2] == 'keys':
             h = self.intr.get('loop:mapkeys')
@@ -1771,10 +1845,23 @@ class X:
         raise Unsupported('for over %s (line %d)' % (type(it).__name__ if not isinstance(it, tuple) else it[0], s.lineno))
 
     def _loop_body(self, body, env, st):
+        """one iteration of a loop body; `continue` ends the iteration on the paths that reach it (break is outside the subset)"""
         for x in ast.walk(ast.Module(body=body, type_ignores=[])):
-            if isinstance(x, (ast.Break, ast.Continue)):
-                raise Unsupported('break/continue')
+            if isinstance(x, ast.Break):
+                raise Unsupported('break')
+        saved = getattr(st, 'cont', None)
+        st.cont = FALSE
         self.block(body, env, st)
+        st.live = z3.simplify(z3.Or(st.live, st.cont))
+        st.cont = saved
+
+    loop_body = _loop_body
+
+    def st_Continue(self, s, env, st):
+        if getattr(st, 'cont', None) is None:
+            raise Unsupported('continue outside a modelled loop')
+        st.cont = z3.Or(st.cont, st.live)
+        st.live = FALSE
 
     def st_While(self, s, env, st):
         h = self.intr.get('loop:while')
